@@ -8,6 +8,8 @@
 #include "vrt_st.h"
 #include "ref_format.h"
 #include "gen_text.h"
+#include "gen_scale.h"
+#include "ambient.h"
 #include <sstream>
 #include <iomanip>
 
@@ -72,6 +74,25 @@ static void dress_stream(OS &os, const S &fmt, int shape)
     vrt::count("writef.stream_with_pending_state");
 }
 
+// big results are reported by length, hash and the bytes around the first difference
+static std::string diff_note(const S &got, const S &want)
+{
+    if (got.size() <= 2000 && want.size() <= 2000) return std::string();
+    const size_t d = scale::first_diff(got, want);
+    return sfmt(" [first difference at byte %zu: got %s want %s]", d, scale::brief(got, d).c_str(), scale::brief(want, d).c_str());
+}
+template <typename CT>
+static std::string diff_notew(const std::basic_string<CT> &got, const std::basic_string<CT> &want)
+{
+    if (got.size() <= 2000 && want.size() <= 2000) return std::string();
+    size_t d = 0;
+    while (d < got.size() && d < want.size() && got[d] == want[d]) ++d;
+    const size_t lo = d > 6 ? d - 6 : 0;
+    return sfmt(" [%zu units, want %zu; first difference at unit %zu: got ..%s want ..%s]", got.size(), want.size(), d,
+                vrt::hex(got.data() + std::min(lo, got.size()), std::min<size_t>(12, got.size() - std::min(lo, got.size())), sizeof(CT)).c_str(),
+                vrt::hex(want.data() + std::min(lo, want.size()), std::min<size_t>(12, want.size() - std::min(lo, want.size())), sizeof(CT)).c_str());
+}
+
 template <typename CT>
 static void wide_sink(const char *name, int shape, const Values &v, const char *fmt, const S &want8, const std::string &ctx)
 {
@@ -91,7 +112,7 @@ static void wide_sink(const char *name, int shape, const Values &v, const char *
         if (want.find(static_cast<CT>(0xFFFF)) != std::basic_string<CT>::npos) { vrt::count("skipped.u16_stream_cannot_hold_FFFF"); return; }
     }
     if (got != want)
-        vrt::violation(sfmt("C17:writef<%s>:differs-from-format", name), sfmt("%s got=%s want=%s", ctx.c_str(), showw(got).c_str(), showw(want).c_str()));
+        vrt::violation(sfmt("C17:writef<%s>:differs-from-format", name), sfmt("%s got=%s want=%s%s", ctx.c_str(), showw(got).c_str(), showw(want).c_str(), diff_notew(got, want).c_str()));
     if (!os.good()) vrt::violation(sfmt("C17:writef<%s>:stream-failed", name), ctx);
 }
 
@@ -102,7 +123,8 @@ static void sink_case(int shape, const Values &v, const S &fmt)
     vrt::cur_printf("shape=%d fmt=%s\n", shape, show(fmt).c_str());
     std::vector<Arg> args;
     call_shape(shape, v, "", &args, [](const char *, auto &&...) {});
-    std::string ctx = sfmt("shape=%d fmt=\"%s\" args: %s", shape, vrt::json_escape(fmt).c_str(), describe_values(args).c_str());
+    std::string ctx = fmt.size() > 2000 ? sfmt("shape=%d fmt: %s (starts: \"%s\") args: %s", shape, scale::brief(fmt).c_str(), vrt::json_escape(fmt.substr(0, 60)).c_str(), describe_values(args).c_str())
+                                        : sfmt("shape=%d fmt=\"%s\" args: %s", shape, vrt::json_escape(fmt).c_str(), describe_values(args).c_str());
     // reference output: ST::format itself (C11 checks it against the specification)
     // (when the bytes are not valid UTF-8 - a pad byte >= 0x80, say - the validating ST::format throws, but
     // ST::format(assume_valid, ...) still yields them, and the sinks that do not validate must emit exactly those bytes)
@@ -148,7 +170,7 @@ static void sink_case(int shape, const Values &v, const S &fmt)
         }
         fclose(fp);
         if (!threw && S(mem, msz) != want)
-            vrt::violation("C17:printf:differs-from-format", sfmt("%s got=%s want=%s", ctx.c_str(), show(S(mem, msz)).c_str(), show(want).c_str()));
+            vrt::violation("C17:printf:differs-from-format", sfmt("%s got=%s want=%s%s", ctx.c_str(), show(S(mem, msz)).c_str(), show(want).c_str(), diff_note(S(mem, msz), want).c_str()));
         free(mem);
     }
     // one case in four: a real file opened for writing whose sticky error indicator was set by an earlier failed read
@@ -172,7 +194,7 @@ static void sink_case(int shape, const Values &v, const S &fmt)
         if (FILE *in = fopen(path.c_str(), "r")) { char buf[4096]; size_t k; while ((k = fread(buf, 1, sizeof(buf), in)) > 0) got.append(buf, k); fclose(in); }
         unlink(path.c_str());
         if (!threw && got != want)
-            vrt::violation("C17:printf(file with error indicator):differs-from-format", sfmt("%s got=%s want=%s", ctx.c_str(), show(got).c_str(), show(want).c_str()));
+            vrt::violation("C17:printf(file with error indicator):differs-from-format", sfmt("%s got=%s want=%s%s", ctx.c_str(), show(got).c_str(), show(want).c_str(), diff_note(got, want).c_str()));
         if (flagged) vrt::count("printf.file_with_error_indicator");
     }
     // the overload without a FILE*: standard output, captured through a memory file put in place of descriptor 1
@@ -198,7 +220,7 @@ static void sink_case(int shape, const Values &v, const S &fmt)
         if (n > 0) { got.resize(static_cast<size_t>(n)); if (pread(mfd, &got[0], got.size(), 0) != n) got.clear(); }
         close(mfd);
         if (!threw && got != want)
-            vrt::violation("C17:printf(stdout):differs-from-format", sfmt("%s got=%s want=%s", ctx.c_str(), show(got).c_str(), show(want).c_str()));
+            vrt::violation("C17:printf(stdout):differs-from-format", sfmt("%s got=%s want=%s%s", ctx.c_str(), show(got).c_str(), show(want).c_str(), diff_note(got, want).c_str()));
         vrt::count("printf.stdout_captured");
     }
     // narrow stream sink
@@ -209,7 +231,7 @@ static void sink_case(int shape, const Values &v, const S &fmt)
         try {
             call_shape(shape, v, f.data(), nullptr, [&](const char *fs, auto &&...a) { ST::writef(os, fs, a...); });
             if (os.str() != want)
-                vrt::violation("C17:writef<char>:differs-from-format", sfmt("%s got=%s want=%s", ctx.c_str(), show(os.str()).c_str(), show(want).c_str()));
+                vrt::violation("C17:writef<char>:differs-from-format", sfmt("%s got=%s want=%s%s", ctx.c_str(), show(os.str()).c_str(), show(want).c_str(), diff_note(os.str(), want).c_str()));
         } catch (const std::exception &e) {
             vrt::violation(sfmt("C17:writef<char>:threw:%s", vrt::demangle(typeid(e).name()).c_str()), ctx + " " + e.what());
         }
@@ -223,7 +245,7 @@ static void sink_case(int shape, const Values &v, const S &fmt)
                 ST::string r = ST::literals::operator""_stfmt(fs, strlen(fs))(a...);
                 got.assign(r.c_str(), r.size());
             });
-            if (got != want) vrt::violation("C17:_stfmt:differs-from-format", sfmt("%s got=%s want=%s", ctx.c_str(), show(got).c_str(), show(want).c_str()));
+            if (got != want) vrt::violation("C17:_stfmt:differs-from-format", sfmt("%s got=%s want=%s%s", ctx.c_str(), show(got).c_str(), show(want).c_str(), diff_note(got, want).c_str()));
         } catch (const std::exception &e) {
             vrt::violation(sfmt("C17:_stfmt:threw:%s", vrt::demangle(typeid(e).name()).c_str()), ctx + " " + e.what());
         }
@@ -235,12 +257,13 @@ static void sink_case(int shape, const Values &v, const S &fmt)
             S got;
             call_shape(shape, v, f.data(), nullptr, [&](const char *fs, auto &&...a) { ST::string r = ST::format_latin_1(fs, a...); got.assign(r.c_str(), r.size()); });
             if (got != latin1_to_utf8(raw))
-                vrt::violation("C17:format_latin_1:differs", sfmt("%s got=%s want=%s", ctx.c_str(), show(got).c_str(), show(latin1_to_utf8(raw)).c_str()));
+                vrt::violation("C17:format_latin_1:differs", sfmt("%s got=%s want=%s%s", ctx.c_str(), show(got).c_str(), show(latin1_to_utf8(raw)).c_str(), diff_note(got, latin1_to_utf8(raw)).c_str()));
         } catch (const std::exception &e) {
             vrt::violation(sfmt("C17:format_latin_1:threw:%s", vrt::demangle(typeid(e).name()).c_str()), ctx + " " + e.what());
         }
     }
     if (!bytes_only) {
+        if (want.size() >= 65536) vrt::count("scale.wide_sinks_transcoded_a_result>=64KiB");
         wide_sink<wchar_t>("wchar_t", shape, v, f.data(), want, ctx);
         wide_sink<char16_t>("char16_t", shape, v, f.data(), want, ctx);
         wide_sink<char32_t>("char32_t", shape, v, f.data(), want, ctx);
@@ -249,7 +272,26 @@ static void sink_case(int shape, const Values &v, const S &fmt)
     if (!ascii(want)) vrt::count("format.non_ascii_output");
     if (want.size() > 300) vrt::count("format.long_output");
     vrt::distinct(vrt::fnv1a(want.data(), want.size(), vrt::fnv1a(fmt.data(), fmt.size(), static_cast<uint64_t>(shape) + 111)));
-    if (vrt::want_sample("sinks") && want.size() > 12 && !ascii(want)) vrt::sample("sinks", sfmt("%s -> \"%s\" through format/printf/writef<char,wchar_t,char16_t,char32_t>/format_latin_1", ctx.c_str(), vrt::json_escape(want).c_str()));
+    if (vrt::want_sample("sinks") && want.size() > 12 && want.size() < 400 && fmt.size() < 400 && !ascii(want)) vrt::sample("sinks", sfmt("%s -> \"%s\" through format/printf/writef<char,wchar_t,char16_t,char32_t>/format_latin_1", ctx.c_str(), vrt::json_escape(want).c_str()));
+}
+
+// The sinks are specified chunk by chunk (a wide sink transcodes every piece it is handed by itself), so a precision may
+// only cut a text argument between two characters: a cut inside a multi-byte character moves back to its first byte.
+// char8_t {c} emits a raw byte: kept ASCII for the same reason.  (Same rules as the "formats" phase.)
+static void fix_for_sinks(ScaleFmt &sf, const std::vector<Arg> &args)
+{
+    size_t seq = 0;
+    for (Field &f : sf.fields) {
+        const size_t idx = f.argref ? static_cast<size_t>(f.argref - 1) : seq++;
+        if (idx >= args.size()) continue;
+        const Arg &a = args[idx];
+        if (a.kind == Arg::Text && f.precision >= 0 && static_cast<size_t>(f.precision) < a.text.size()) {
+            size_t p = static_cast<size_t>(f.precision);
+            while (p > 0 && (static_cast<unsigned char>(a.text[p]) & 0xC0) == 0x80) --p;
+            if (p != static_cast<size_t>(f.precision)) { f.precision = static_cast<int>(p); vrt::count("scale.precision_moved_back_to_a_character_boundary"); }
+        }
+        if (a.kind == Arg::Char8 && f.cls == 'c' && a.u >= 0x80) f.cls = 0;
+    }
 }
 
 // ---------------------------------------------------------------- stream insertion / extraction
@@ -314,6 +356,7 @@ static void extract_case(const char *name, const std::vector<unsigned long> &cps
 
 static void body()
 {
+    ambient::enable(3);
     vrt::require("format.compared", 5000);
     vrt::require("format.non_ascii_output", 1000);
     vrt::require("format.long_output", 20);
@@ -394,6 +437,93 @@ static void body()
         extract_case<wchar_t>("wchar_t", src);
         vrt::distinct(vrt::fnv1a(text.data(), text.size(), vrt::fnv1a(src.data(), src.size() * sizeof(unsigned long), 112)));
         if (vrt::want_sample("insert_extract") && text.size() > 10) vrt::sample("insert_extract", "insert text=" + show(text) + " into char/wchar_t/char16_t/char32_t streams; extract whitespace-separated tokens");
+    });
+    // ---- U+0000 and the precision: a sized string argument is cut to the precision whatever its bytes are, in every sink
+    const auto describe_only = [](const char *, auto &&...) {};
+    vrt::require("nul_precision.cases", 3000);
+    vrt::require("nul_precision.U+0000_inside_the_kept_part_of_a_sized_string", 500);
+    vrt::require("nul_precision.U+0000_is_the_last_kept_byte", 300);
+    vrt::require("nul_precision.U+0000_is_the_first_cut_byte", 300);
+    vrt::require("nul_precision.converted_wide_string", 500);
+    vrt::phase("nul_precision", vrt::tier_count(8000, 300000), [&](uint64_t, Rng &r) {
+        Values v;
+        int shape = 3;
+        ScaleFmt sf;
+        nul_precision_case(r, v, shape, sf);
+        std::vector<Arg> args;
+        call_shape(shape, v, "", &args, describe_only);
+        fix_for_sinks(sf, args);
+        sink_case(shape, v, sf.text());
+    });
+
+    // ---- scale (rt/ref_format.h, last section): the same monitor (sink_case) on format strings, arguments, renderings and pad
+    // runs of several KiB to a MiB: every sink gets single pieces of more than 64 KiB (the wide streams transcode them) with
+    // 2-, 3- and 4-byte characters touching / straddling multiples of block sizes, and pad runs of up to 200000
+    vrt::note("scale phases: (1) literal runs of up to 400 KiB in which {{ / }} / a field / a stray } / a 2-, 3-, 4-byte character / the end of the string begins q*B-k bytes "
+              "(B over scale::blocks(), q in 1..8, k in 0..3) behind the start of the run or of the string, chained; (2) 255..70000 fields in one format string, "
+              "argument lists of 9, 17 and 20; (3) text arguments of 1 KB..1 MiB with characters / U+0000 / the precision cut / the end on such multiples, "
+              "pad runs of up to 200000 behind texts and numbers, characters on multiples of the output offset - all through every sink");
+    static const size_t CAP = 400 * 1024;
+    vrt::require("scale.literal.cases", 200);
+    vrt::require("scale.literal.token_straddles_a_multiple", 150);
+    vrt::require("scale.literal.token_starts_on_a_multiple", 50);
+    vrt::require("scale.literal.format_string>=64KiB", 50);
+    vrt::require("scale.literal.format_string>=256KiB", 10);
+    for (int t = 0; t < N_TOK; ++t) vrt::require(S("scale.literal.token.") + tok_name(t), 30);
+    vrt::phase("scale_literals", vrt::tier_count(672, 20160), [&](uint64_t i, Rng &r) {
+        const LiteralPlan p = literal_plan(i, N_TOK);
+        Values v;
+        random_values(r, v);
+        static const int shapes[] = {1, 2, 3, 5, 6, 7, 9, 10, 11, 12, 47, 200, 201, 202};
+        const int shape = r.pick(shapes);
+        std::vector<Arg> args;
+        call_shape(shape, v, "", &args, describe_only);
+        ScaleFmt sf;
+        if (!scale_literal_chain(r, p, p.kind, args.size(), CAP, true, sf)) { vrt::count("scale.literal.skipped_too_large"); return; }
+        fix_for_sinks(sf, args);
+        sink_case(shape, v, sf.text());
+        if (vrt::want_sample("scale") && sf.len > 20000)
+            vrt::sample("scale", sfmt("format string of %zu bytes, %zu fields: %s begins at offsets %zu.. (block %zu, first multiple %zu, %zu bytes in front of it), through all sinks", sf.len, sf.fields.size(),
+                                      tok_name(p.kind), sf.starts.empty() ? 0 : sf.starts[0], p.B, p.q0, p.k0));
+    });
+    vrt::require("scale.fields.cases", 20);
+    vrt::require("scale.fields.more_than_255_fields", 15);
+    vrt::require("scale.fields.more_than_65535_fields", 4);
+    vrt::require("scale.fields.more_than_16_arguments", 4);
+    vrt::require("scale.fields.sequential_field_behind_255_others", 10);
+    vrt::phase("scale_fields", vrt::tier_count(48, 1200), [&](uint64_t i, Rng &r) {
+        Values v;
+        random_values(r, v);
+        static const int shapes[] = {200, 201, 202, 5, 47, 1, 10, 12, 200, 202};
+        const int shape = r.pick(shapes);
+        std::vector<Arg> args;
+        call_shape(shape, v, "", &args, describe_only);
+        ScaleFmt sf;
+        scale_many_fields(i, r, args.size(), false, sf);
+        fix_for_sinks(sf, args);
+        sink_case(shape, v, sf.text());
+    });
+    vrt::require("scale.args.cases", 200);
+    vrt::require("scale.args.whole_text", 30);
+    vrt::require("scale.args.precision_cut", 30);
+    vrt::require("scale.args.text_with_pad_run", 30);
+    vrt::require("scale.args.number_with_pad_run", 30);
+    vrt::require("scale.args.pad_run>=65536", 10);
+    vrt::require("scale.args.text_of_block_length", 30);
+    vrt::require("scale.args.output_offset", 30);
+    vrt::require("scale.args.text_argument>=64KiB", 50);
+    vrt::require("scale.args.text_argument>=1MB", 3);
+    vrt::require("scale.args.character_straddles_a_multiple", 30);
+    vrt::require("scale.wide_sinks_transcoded_a_result>=64KiB", 100);
+    vrt::phase("scale_args", vrt::tier_count(504, 15120), [&](uint64_t i, Rng &r) {
+        Values v;
+        ArgCase c;
+        scale_arg_case(i, r, v, c, (1u << 20) + 4096, 1u << 21);
+        std::vector<Arg> args;
+        call_shape(c.shape, v, "", &args, describe_only);
+        fix_for_sinks(c.f, args);
+        sink_case(c.shape, v, c.f.text());
+        if (vrt::want_sample("scale-arguments")) vrt::sample("scale-arguments", sfmt("shape %d, format \"%s\": %s, through all sinks", c.shape, vrt::json_escape(c.f.text().substr(0, 80)).c_str(), c.what.c_str()));
     });
     vrt::alloc::check_pairing("sinks");
 }
